@@ -71,6 +71,14 @@ Record mp := { m_pos : Z; m_tilt : Z; m_time : Z; m_off : bool }.
 Definition keeps_position (c : cfg) : bool :=
   (tilt_type c =? TILT_KEEP_POSITION) || (tilt_type c =? TILT_ONLY_CLOSED).
 
+(* one "adjust ... change" block of move_position: x = tilt or position, rt = remaining time of that
+   quantity, Tq = its full time; returns the new value and the time the change stands for (time_delta) *)
+Definition adjust (o : fpops) (up : bool) (x rt time Tq : Z) : Z * Z :=
+  if 0 <? rt then
+    if rt <=? time then ((if up then 100 else 10100), fp_tod o (if up then x - 100 else 10100 - x) Tq)
+    else let d := fp_dot o time Tq in ((if up then x - d else x + d), fp_tod o d Tq)
+  else (x, 0).
+
 Definition move_position (o : fpops) (c : cfg) (pos tilt time full_ms : Z) (up : bool) : mp :=
   if negb (known pos) || (full_ms =? 0) then {| m_pos := pos; m_tilt := tilt; m_time := time; m_off := false |} else
   let tilt1 := if tilt_supported c && negb (known tilt) then 100 else tilt in
@@ -85,21 +93,15 @@ Definition move_position (o : fpops) (c : cfg) (pos tilt time full_ms : Z) (up :
   let rtt := if fixed then 0 else rtt0 in
   let tilt2 := if fixed then 100 else tilt1 in
   (* adjust tilt change *)
-  let tilt_delta := if rtt <=? time then (if up then tilt2 - 100 else 10100 - tilt2) else fp_dot o time full_tilting in
-  let tilt3 := if 0 <? rtt then
-                 (if rtt <=? time then (if up then 100 else 10100)
-                  else (if up then tilt2 - tilt_delta else tilt2 + tilt_delta))
-               else tilt2 in
-  let td1 := if 0 <? rtt then fp_tod o tilt_delta full_tilting else 0 in
+  let a1 := adjust o up tilt2 rtt time full_tilting in
+  let tilt3 := fst a1 in
+  let td1 := snd a1 in
   (* skip position change when position change is not happening during tilting *)
   let rpt := if (0 <? td1) && keeps_position c then 0 else rpt0 in
   (* adjust position change *)
-  let pos_delta := if rpt <=? time then (if up then pos - 100 else 10100 - pos) else fp_dot o time full_pos in
-  let pos3 := if 0 <? rpt then
-                (if rpt <=? time then (if up then 100 else 10100)
-                 else (if up then pos - pos_delta else pos + pos_delta))
-              else pos in
-  let td2 := if 0 <? rpt then fp_tod o pos_delta full_pos else td1 in
+  let a2 := adjust o up pos rpt time full_pos in
+  let pos3 := fst a2 in
+  let td2 := if 0 <? rpt then snd a2 else td1 in
   (* carry *)
   let time' := if time <? td2 then 0 else time - td2 in
   (* end stops with the time margin *)
@@ -183,25 +185,60 @@ Definition clamp (x : Z) : Z := if x <? 0 then 0 else if 10000 <? x then 10000 e
 Definition ideal (p t T : Z) (up : bool) : Z :=
   if up then clamp (p - 10000 * t / T) else clamp (p + 10000 * t / T).
 
+(* ---------- the value reported to the server (200 ms block of the callback) ---------- *)
+(* rs_cfg->flags and the last reported triple; kept apart from `st` because the accounting does not depend on them *)
+Record rp := { flags : Z; last_pos : Z; last_tilt : Z; last_flags : Z }.
+Definition rp0 : rp := {| flags := 0; last_pos := 0; last_tilt := 0; last_flags := 0 |}.
+Definition set_flag (f b : Z) : Z := Z.lor f b.
+Definition clear_flag (f b : Z) : Z := Z.land f (65535 - b).
+Definition is_tilt_set (c : cfg) (t : Z) : bool := negb (negb (known t) && tilt_supported c).
+Definition s8_byte (v : Z) : Z := v mod 256.
+
+Definition cb_due (boot : Z) (s : st) (dt : Z) : bool :=
+  REPORT_PERIOD_US <=? u32 (u32 (boot + (now s + dt)) - last_comm s).
+
+(* s = state before the callback, s' = timer_cb ... s dt; returns the new report state and the 8 value bytes
+   handed to supla_esp_channel_value__changed, if any *)
+Definition rep_step (c : cfg) (boot : Z) (s s' : st) (dt : Z) (r : rp) : rp * option (list Z) :=
+  let f0 := clear_flag (flags r) FLAG_CALIBRATION_IN_PROGRESS in
+  let f1 :=
+    if (dir s =? RELAY_UP) || (dir s =? RELAY_DOWN) then
+      let full := if dir s =? RELAY_UP then full_open c else full_close c in
+      if negb (known (pos s)) && (0 <? full)
+      then clear_flag (set_flag f0 FLAG_CALIBRATION_IN_PROGRESS) FLAG_TILT_IS_SET else f0
+    else f0 in
+  if cb_due boot s dt && (negb (last_pos r =? pos s') || negb (last_flags r =? f1) || negb (last_tilt r =? tilt s')) then
+    let f2 := if tilt_type c =? TILT_NOT_SUPPORTED then clear_flag f1 FLAG_TILT_IS_SET
+              else if is_tilt_set c (tilt s') then set_flag f1 FLAG_TILT_IS_SET else clear_flag f1 FLAG_TILT_IS_SET in
+    let b1 := if tilt_type c =? TILT_NOT_SUPPORTED then 0 else s8_byte (current_tilt c (tilt s')) in
+    ({| flags := f2; last_pos := pos s'; last_tilt := tilt s'; last_flags := f1 |},
+     Some [s8_byte (current_position (pos s')); b1; 0; f2 mod 256; f2 / 256; 0; 0; 0])
+  else ({| flags := f1; last_pos := last_pos r; last_tilt := last_tilt r; last_flags := last_flags r |}, None).
+
 (* ---------- wire interface ---------- *)
 (* inputs : 0 CFG boot full_open full_close tilt_ms tilt_type margin pos0 tilt0 now0 | 1 SET d | 2 CB dt | 3 POKE p t
-   outputs: 0 ST pos tilt up_time down_time dir reported_position reported_tilt      (after every CB) *)
+   outputs: 1 REPORT : <8 value bytes>                                               (when the callback reports)
+            0 ST pos tilt up_time down_time dir reported_position reported_tilt      (after every CB) *)
 Definition nth0 (l : list Z) (i : nat) : Z := nth i l 0.
 
-Fixpoint run_wire_from (o : fpops) (c : cfg) (boot : Z) (s : st) (ws : list wire) : list wire :=
+Fixpoint run_wire_from (o : fpops) (c : cfg) (boot : Z) (s : st) (r : rp) (ws : list wire) : list wire :=
   match ws with
   | [] => []
-  | (k, a, _) :: r =>
+  | (k, a, _) :: rest =>
     if k =? 0 then
       let c' := {| full_open := nth0 a 1; full_close := nth0 a 2; tilt_ms := nth0 a 3; tilt_type := nth0 a 4; margin := set_time_margin (nth0 a 5) |} in
-      run_wire_from o c' (nth0 a 0) (init c' (nth0 a 6) (nth0 a 7) (nth0 a 8)) r
-    else if k =? 1 then run_wire_from o c boot (step o c boot s (SetDir (nth0 a 0))) r
-    else if k =? 3 then run_wire_from o c boot (step o c boot s (Poke (nth0 a 0) (nth0 a 1))) r
+      run_wire_from o c' (nth0 a 0) (init c' (nth0 a 6) (nth0 a 7) (nth0 a 8)) rp0 rest
+    else if k =? 1 then run_wire_from o c boot (step o c boot s (SetDir (nth0 a 0))) r rest
+    else if k =? 3 then run_wire_from o c boot (step o c boot s (Poke (nth0 a 0) (nth0 a 1))) r rest
     else
       let s' := step o c boot s (Cb (nth0 a 0)) in
-      mk 0 [pos s'; tilt s'; up_time s'; down_time s'; dir s'; current_position (pos s'); current_tilt c (tilt s')] []
-      :: run_wire_from o c boot s' r
+      let '(r', rep) := rep_step c boot s s' (nth0 a 0) r in
+      let st_line := mk 0 [pos s'; tilt s'; up_time s'; down_time s'; dir s'; current_position (pos s'); current_tilt c (tilt s')] [] in
+      match rep with
+      | Some b => mk 1 [] b :: st_line :: run_wire_from o c boot s' r' rest
+      | None => st_line :: run_wire_from o c boot s' r' rest
+      end
   end.
 
 Definition cfg0 : cfg := {| full_open := 0; full_close := 0; tilt_ms := 0; tilt_type := 0; margin := 110 |}.
-Definition main_wire (ws : list wire) : list wire := run_wire_from fops cfg0 1 (init cfg0 0 0 0) ws.
+Definition main_wire (ws : list wire) : list wire := run_wire_from fops cfg0 1 (init cfg0 0 0 0) rp0 ws.
